@@ -10,7 +10,28 @@ CLAIMED = {
    "exhaustive bounded enumeration of the value universe (E1), real encoder+decoder executed on every value, component-wise oracle",
    "Every well-formed value of the scalar alphabet and the container universe (quick: ~10^5 values up to depth 3; thorough: ~1.3*10^7 incl. all 1 112 064 Unicode scalar values in 7 string positions, f64 lattices, every database unit and every in-model zone) is encoded to Zinc by the real encoder, decoded by the real decoder and compared component by component. Exhaustive within the stated bounds; small-scope argument beyond them.",
    "Trusts chrono/chrono-tz calendar arithmetic and the harness's own value model (model/v.rs) and universe construction. Values outside the alphabets (longer strings, wider containers) are not explored."),
+ "C12": ("exploration", "DESIGN.md §5 C12",
+   "exhaustive enumeration of all ordered pairs and triples of a near-collision pool (E1); every law evaluated on the real PartialEq/Hash/Ord/PartialOrd impls",
+   "All |Π|² pairs and |Π|³ triples of a pool built for near-collisions (±0, same magnitude under different/absent units, Refs differing in dis, same payload under different kinds, dict/list/grid neighbours, equal instants in different zones, nested copies) are checked against reflexivity, symmetry, transitivity, clone, eq⇒hash (two hashers), antisymmetry and transitivity of cmp, cmp=Equal⇔==, partial⇒total, and the collection consequences (HashSet/BTreeSet/BTreeMap/sort+dedup see exactly the ==-classes), for Value and 15 typed values, plus Eq/Hash/PartialOrd over all database units.",
+   "No NaN (excluded by the statement). Two hashers stand for 'any hasher'. Values outside the pool are covered only by the small-scope argument."),
+ "C15": ("exploration", "DESIGN.md §5 C15",
+   "exhaustive enumeration of the finite unit database x all identifiers x magnitudes, reference table parsed independently from units.txt",
+   "Finite and complete: every unit of unit-gen/units.txt and every one of its ids is looked up (pointer identity), compared with the harness's own parse of units.txt, decoded from Zinc text in six number spellings and sent through both codecs with nine magnitudes; ~30 000 non-identifier strings (all strings <= 3 over the unit alphabet, every 1-edit of an id) must not be found.",
+   "units.txt is the database of record; the harness parser of it is trusted."),
+ "C16": ("exploration", "DESIGN.md §5 C16",
+   "exhaustive enumeration of all ordered unit pairs x magnitudes against a reference dimension/scale/offset table",
+   "All 443² ordered pairs of database units x 9 magnitudes: convert_to succeeds iff same dimension (or both byte units), equals the physical conversion within a derived forward-error bound and converts back; unit * and / yield only database units with the right dimension and scale; Number + - * / carry units as stated.",
+   "Error bounds are derived from the operation count of the formula; +/- with one unit-less operand is unconstrained by the statement."),
+ "C19": ("exploration", "DESIGN.md §5 C19",
+   "exhaustive enumeration: all values of the universe x all predicates/conversions/getters; all 256 codes; all names and near-miss names; all record lists up to length 3",
+   "Every value of Σ ∪ U: exactly one of 18 predicates, HaystackKind::from, all 20 typed TryFrom<&Value> and 14 dict getters + 3 has_* succeed exactly for the matching kind and return the stored payload; all 256 u8 codes and 18 names map one-to-one and every near-miss name is rejected; every list of <= 3 records through the three grid constructors keeps rows in order with sorted distinct columns.",
+   "Payload comparison uses the harness value model."),
+ "C20": ("exploration", "DESIGN.md §5 C20",
+   "exhaustive enumeration of all records over the 8 display tags and of all macro patterns up to length 6/7 over a 12-character alphabet, against a hand-written reference scanner",
+   "All 3^8 records (each display tag absent or one of two values of different kinds) with/without default and via Dict::dis(); every pattern of length <= 6 (thorough 7) over {$ { } < > a b B 1 _ space é} against three scopes and a localiser; reference = precedence chain of the statement + left-to-right macro scanner without regex.",
+   "Text of non-Str/non-Ref values is delegated to Value::to_string(). Macro name syntax [a-z][A-Za-z0-9_]* taken from the Haystack tag-name grammar."),
 }
+
 
 NOT_YET = "check not built yet in this round (machinery under construction; see DESIGN.md for the planned exhaustive check)"
 
